@@ -145,6 +145,15 @@ def mutate(r, g, insts, per_class=2):
                           with_toks(["(", "BASE", "(", "'x'", ")", "EXTRA", "(", ".RED.", ")", "LEFTY", "(", "'l'", ")", ")"]), iid, False))
             cands.append(("undeclared_enum_item", "complex part EXTRA(.PURPLE.)",
                           with_toks(["(", "BASE", "(", "1", ")", "EXTRA", "(", ".PURPLE.", ")", "LEFTY", "(", "'l'", ")", ")"]), iid, False))
+            # the family whose SI_B part derives UNIT_B.dims: a value where the asterisk belongs, and faults in the other parts
+            cands.append(("value_for_derived", "complex part value for derived: UNIT_B(7) beside SI_B",
+                          with_toks(["(", "LEN_B", "(", "'l'", ")", "SI_B", "(", ".RED.", ")", "UNIT_B", "(", "7", ")", ")"]), iid, False))
+            cands.append(("undeclared_enum_item", "complex part SI_B(.PURPLE.) beside UNIT_B(*)",
+                          with_toks(["(", "LEN_B", "(", "'l'", ")", "SI_B", "(", ".PURPLE.", ")", "UNIT_B", "(", "*", ")", ")"]), iid, False))
+            cands.append(("wrong_kind", "complex part LEN_B(12) beside UNIT_B(7): a tolerated value does not hide another fault",
+                          with_toks(["(", "LEN_B", "(", "12", ")", "SI_B", "(", ".RED.", ")", "UNIT_B", "(", "7", ")", ")"]), iid, False))
+            cands.append(("star_not_derived", "complex part UNIT_B(*) without the deriving part",
+                          with_toks(["(", "LEN_B", "(", "'l'", ")", "UNIT_B", "(", "*", ")", ")"]), iid, False))
         dup = {"id": iid, "complex": False, "parts": [("ITEM", [("str", "dup")])], "toks": ["ITEM", "(", "'dup'", ")"], "dup": True}
         cands.append(("duplicate_id", "#%d twice" % iid, insts + [dup], None, False))
         # an own class when the last parameter is $ (the reader treats what follows a $ separately)
@@ -179,6 +188,8 @@ def mutate(r, g, insts, per_class=2):
             key = c[0] + " " + c[1]
         if " := " in c[1] and c[0] in ("wrong_kind", "wrong_kind_element", "undeclared_enum_item", "dangling_reference", "select_outside_list"):
             key = c[0] + " " + c[1].split(" (", 1)[1]        # "<kind>) := <bad value>", optional and required apart
+        if c[1].startswith("complex part"):
+            key = c[0] + " " + c[1]                              # each fault inside an externally mapped instance is its own class
         if c[0] == "ill_typed_reference":
             key = c[0] + " " + c[1].split(" := ")[0]             # per attribute: redeclared ones (CARRIER.load in DCARRIER) have their own reader path
         if seen.get(key, 0) < per_class:
